@@ -864,13 +864,9 @@ func (m *Machine) flushNP() {
 	}
 	start := time.Now()
 	any := Or(conds...)
-	var excl []*Term
-	for _, k := range m.kfs {
-		excl = append(excl, Not(k.T))
-	}
-	res, _ := m.solver.Check(append([]*Term{any}, excl...), false, nil)
+	res, _ := m.solver.Check([]*Term{any}, false, nil)
 	ms := float64(time.Since(start).Microseconds()) / 1000
-	if res == Unsat && len(m.kfs) == 0 {
+	if res == Unsat {
 		for _, p := range uniq {
 			m.vcs = append(m.vcs, &VC{Harness: m.harness, Class: p.class, Label: p.label, Pos: p.pos, Result: "unsat", Ms: ms / float64(len(uniq)), Size: p.c.Size(), Batched: len(uniq)})
 		}
